@@ -292,6 +292,87 @@ def run(ctx):
                 inside = _lin.implies(cons, _lin.ge(o - m0)) and _lin.implies(cons, _lin.ge(m0 + mlen - o - n_))
                 ctx.check(inside, R2, '%s:use#%d:inside-authenticated-range' % (q.fkey(f), k), 'cipher-text bytes outside the MAC-covered range are decrypted / copied out', f.loc(i), detail={'offset': repr(o), 'length': repr(n_)})
             ctx.check(bool(uses), R2, '%s:uses-found' % q.fkey(f), 'no use of the authenticated cipher text found', f.where)
+    # R8: what is compared with the transmitted digest is the HMAC that was just read out; the length is checked before it is subtracted
+    R8 = ctx.rule('C05.R8', 'decrypt: the local operand of the MAC comparison is the buffer the keyed digest was read out into (same object that was fed the message), untouched in between; message size = size - digest_size is computed only after size >= digest_size')
+    for f in decs:
+        cp_ = q.param_by_index(f, 0)
+        # the comparison may sit in decrypt itself or in a helper of the same file that decrypt calls
+        hosts = [f] + [g for g in [P.fns.get(f.N(i).get('callee') or '') for i in f.calls()] if g is not None and g.entry is not None and g.file == f.file and g is not f]
+        hosts = [g for g in hosts if any(g.bcallee(i) == EQUAL for i in g.calls())]
+        if len(hosts) != 1 or len([i for i in hosts[0].calls() if hosts[0].bcallee(i) == EQUAL]) != 1:
+            ctx.check(False, R8, '%s:one-comparison' % q.fkey(f), 'expected one MAC comparison (in decrypt or in a helper it calls)', f.where)
+            continue
+        h = hosts[0]
+        e = [i for i in h.calls() if h.bcallee(i) == EQUAL][0]
+        vecs = dict((d['ref'], h.types[d['t']] or '') for i in h.all_nodes() if h.N(i)['k'] == 'DeclStmt' for d in h.N(i)['decls'])
+        loc_ops = [a for a in h.args(e)[:2] if any(r.startswith('v:') and 'std::vector' in vecs.get(r, '') for r in q.deep_refs(h, a))]
+        bufs = set(r for a in loc_ops for r in q.deep_refs(h, a) if r.startswith('v:') and 'std::vector' in vecs.get(r, ''))
+        ros = [i for i in h.calls() if h.bcallee(i) == 'cppcms::crypto::hmac::readout']
+        apps = [i for i in h.calls() if h.bcallee(i) == 'cppcms::crypto::hmac::append']
+        okb = len(loc_ops) == 1 and len(bufs) == 1 and len(ros) == 1 and len(apps) >= 1
+        if okb:
+            B = next(iter(bufs))
+            ro = ros[0]
+            same_obj = h.obj(ro) is not None and all(h.obj(a_) is not None and h.ref_of(h.obj(a_)) == h.ref_of(h.obj(ro)) for a_ in apps) and h.ref_of(h.obj(ro)) is not None
+            into_b = B in q.deep_refs(h, h.args(ro)[0])
+
+            def idx0(node, h=h):
+                idx = [j for j in h.walk(node) if h.N(j)['k'] == 'CXXOperatorCallExpr' and h.N(j).get('op') == '[]']
+                return (len(idx) == 1 and h.const_value(h.N(idx[0])['ch'][2]) == 0) or (not idx and any(q.short_of(h.bcallee(j) or '') in ('front', 'data') for j in h.calls(node)))
+            start = idx0(h.args(ro)[0]) and idx0(loc_ops[0])
+            order = all(q.before(h, a_, ro) for a_ in apps) and q.before(h, ro, e)
+            touched = [i for i in h.calls() if i not in (ro, e) and h.point_of(i) and B in h.subtree_refs(i) and q.between(h, ro, i, e) and
+                       (h.callee(i) in ('memset', 'memcpy', 'memmove') or q.short_of(h.bcallee(i) or '') in ('assign', 'clear', 'resize', 'swap', 'readout'))]
+            okb = same_obj and into_b and start and order and not touched
+        ctx.check(okb, R8, '%s:compared-value-is-the-read-out-mac' % q.fkey(f), 'the buffer compared with the transmitted digest is not (any more) the HMAC of the message: a cookie with a constant trailer would be accepted', h.loc(e))
+        # size - digest_size only after the size test
+        S8 = q.symb_with_locals(f)
+        SIZE8 = None
+        for i in f.calls():
+            if q.short_of(f.callee(i)) in ('size', 'length') and f.N(i)['k'] == 'CXXMemberCallExpr' and f.ref_of(f.obj(i)) == cp_:
+                SIZE8 = _lin.Symb(f).lin(i)
+        DIG8 = [_lin.Symb(f).lin(i) for i in f.calls() if q.short_of(f.callee(i)) == 'digest_size']
+        subs = []
+        for i in f.all_nodes():
+            n_ = f.N(i)
+            if n_['k'] == 'BinaryOperator' and n_.get('op') == '-' and SIZE8 is not None and DIG8:
+                l_, r_ = S8.lin(n_['ch'][0]), S8.lin(n_['ch'][1])
+                if (l_ - SIZE8).key() == _L.const(0).key() and any((r_ - d_).key() == _L.const(0).key() for d_ in DIG8):
+                    subs.append(i)
+
+        def long_enough(atom, pol, f=f, S8=S8):
+            n_ = f.N(atom)
+            if n_['k'] != 'BinaryOperator' or n_.get('op') not in ('<', '<=', '>', '>='):
+                return False
+            cons = S8.rel(atom, pol)
+            if not cons or SIZE8 is None or not DIG8:
+                return False
+            atoms_ = set(a for (_, e_) in cons for a in e_.atoms()) | set(SIZE8.atoms()) | set(a for d_ in DIG8 for a in d_.atoms())
+            return _lin.implies(cons + [_lin.ge(_L.atom(a)) for a in atoms_], _lin.ge(SIZE8 - DIG8[0]))       # all quantities are unsigned sizes
+        g_len = f.gate_edges(long_enough)
+        ctx.check(bool(subs) and bool(g_len) and all(f.only_through(i, g_len) for i in subs), R8, '%s:size-minus-digest-only-when-long-enough' % q.fkey(f),
+                  'size - digest_size is computed for a cookie shorter than the digest (wraps to a huge length that is then hashed / read)', f.loc(subs[0]) if subs else f.where)
+    # the block cipher writes its n output bytes into the start of a buffer of at least n bytes
+    for f in decs + P.overriders_of('cppcms::sessions::encryptor::encrypt'):
+        S9 = q.symb_with_locals(f)
+        for k_, i in enumerate([i for i in f.calls() if f.bcallee(i) in ('cppcms::crypto::cbc::decrypt', 'cppcms::crypto::cbc::encrypt')]):
+            a = f.args(i)
+            idx = [j for j in f.walk(a[1]) if f.N(j)['k'] == 'CXXOperatorCallExpr' and f.N(j).get('op') == '[]']
+            fr_ = [j for j in f.calls(a[1]) if q.short_of(f.bcallee(j) or '') in ('front', 'data') and f.obj(j) is not None]
+            outv = [f.ref_of(f.N(idx[0])['ch'][1])] if len(idx) == 1 else ([f.ref_of(f.obj(fr_[0]))] if len(fr_) == 1 else [])
+            outv = [r for r in outv if r and r.startswith('v:')]
+            at0 = (len(idx) == 1 and f.const_value(f.N(idx[0])['ch'][2]) == 0) or (not idx and any(q.short_of(f.bcallee(j) or '') in ('front', 'data') for j in f.calls(a[1])))
+            okc = len(outv) == 1 and at0
+            if okc:
+                ctor = [(d_, v_) for (d_, v_) in f.defs_of_var(outv[0]) if v_ is not None]
+                okc = len(ctor) == 1 and f.N(f.strip(ctor[0][1]))['k'] in ('CXXConstructExpr',) and bool(f.args(f.strip(ctor[0][1])))
+                if okc:
+                    cap = S9.lin(f.args(f.strip(ctor[0][1]))[0])
+                    need = S9.lin(a[2])
+                    atoms_ = set(cap.atoms()) | set(need.atoms())
+                    okc = _lin.implies([_lin.ge(_L.atom(x)) for x in atoms_], _lin.ge(cap - need))
+            ctx.check(okc, R8, '%s:cbc#%d:output-buffer-holds-the-n-bytes-written' % (q.fkey(f), k_), 'the block cipher writes n bytes to a place that has fewer than n bytes left', f.loc(i))
+    ctx.floor(R8, 5)
     # encrypt side: the MAC covers everything that precedes it in the produced cookie
     encs = P.overriders_of('cppcms::sessions::encryptor::encrypt')
     for f in encs:
